@@ -64,6 +64,7 @@ type Contract struct {
 type SplitSpec struct {
 	Expr   Clause
 	Values []Clause
+	Else   bool // an extra residual case: none of the listed values
 }
 
 type Pred struct {
@@ -381,6 +382,10 @@ func parseContractFile(path, pkgPath string) (*ContractFile, error) {
 				for _, v := range splitTop(l.rest[i+4:], ',') {
 					l3 := l
 					l3.rest = strings.TrimSpace(v)
+					if l3.rest == "else" {
+						sp.Else = true
+						continue
+					}
 					vc, err := mk(l3, false)
 					if err != nil {
 						return nil, err
